@@ -5,7 +5,7 @@
 import json, os, subprocess, sys, time
 
 scratch, tier, seed, nplain, nrace, sites, start = sys.argv[1], sys.argv[2], int(sys.argv[3]), int(sys.argv[4]), int(sys.argv[5]), sys.argv[6], float(sys.argv[7])
-VERIF = "/verif"
+VERIF = os.environ.get("VERIF", "/verif")
 WORKERS = 16
 base = seed * 100_000_000
 
